@@ -167,7 +167,7 @@ def summaries(world):
 
     def init_set_str(I, a, ins):
         W.bounds.setdefault('X', (-INF, INF))
-        W.setv(a[0], AZ(Poly.var('X'), -INF, INF))
+        W.setv(a[0], W.refresh(AZ(Poly.var('X'), -INF, INF)))
         return 0
 
     def set_(I, a, ins):
@@ -314,7 +314,88 @@ def summaries(world):
         W.setv(a[0], AZ(Poly.var(r), 0, d - 1))
         return Poly.var(r)
 
-    S = {'__gmpz_fits_slong_p': fits(-(1 << 63), (1 << 63) - 1), '__gmpz_fits_ulong_p': fits(0, (1 << 64) - 1),
+    # ---- the std::string operand: length LEN, first character CH0 ('-' = 45 iff the literal is negative), denoted integer X
+    STR = '_ZNKSt7__cxx1112basic_stringIcSt11char_traitsIcESaIcEE'
+    state = {}
+
+    def str_size(I, a, ins):
+        W.bounds.setdefault('LEN', (0, INF))
+        return Poly.var('LEN')
+
+    def str_index(I, a, ins):
+        from .interp import Region
+        reg = state.get('chars')
+        if reg is None:
+            reg = state['chars'] = Region('string characters', 'param', extent=None, elem='int')
+            W.bounds.setdefault('CH0', (0, 255))
+            I.mem[(reg, 0)] = (Poly.var('CH0'), 1)
+        idx = a[1] if len(a) > 1 else 0
+        return Ptr(reg, idx)
+
+    def negative_literal():
+        """True / False / None: is the first character known to be '-'?"""
+        b = W.bounds.get('CH0')
+        if b is None:
+            return None
+        if b == (45, 45):
+            return True
+        if b[1] < 45 or b[0] > 45:
+            return False
+        return None
+
+    def x_bounds(radix):
+        neg = negative_literal()
+        lo, hi = -INF, INF
+        if neg is True:
+            hi = 0
+        elif neg is False:
+            lo = 0
+            ln = W.bounds.get('LEN', (0, INF))[1]
+            rh = radix if isinstance(radix, int) else W.rng(as_poly(radix))[1]
+            if ln != INF and rh != INF:
+                hi = int(rh) ** int(ln) - 1
+        return lo, hi
+
+    def declare_x(radix):
+        lo, hi = x_bounds(radix)
+        l0, h0 = W.bounds.get('X', (-INF, INF))
+        W.bounds['X'] = (max(l0, lo), min(h0, hi))
+
+    def init_set_str2(I, a, ins):
+        declare_x(a[2] if len(a) > 2 else 10)
+        W.setv(a[0], W.refresh(AZ(Poly.var('X'), -INF, INF)))
+        return 0
+
+    def strtoull(I, a, ins):
+        # unsigned long long strtoull(const char *s, char **end, int base): the value of the literal, saturated at 2^64-1;
+        # a negative literal is negated in unsigned arithmetic. Only complete, valid literals are modelled (*end = the terminator).
+        from .interp import Region
+        declare_x(a[2])
+        x = W.refresh(AZ(Poly.var('X'), -INF, INF))
+        endp = a[1]
+        if isinstance(endp, Ptr) and endp.reg.kind != 'null':
+            er = state.get('end')
+            if er is None:
+                er = state['end'] = Region('string terminator', 'param', extent=1, elem='int')
+                I.mem[(er, 0)] = (0, 1)
+            I.store_cell(endp, Ptr(er, 0), 8)
+        if x.lo < 0:
+            raise Incomplete('strtoull of a literal that may be negative')
+        top = (1 << 64) - 1
+        if x.hi <= top:
+            return x.e
+        out = W.decide(('fits', x.e.key(), 0, top), ['in', 'above'])
+        if out == 'in':
+            W.refine_sym(x.e, hi=top)
+            W.trace.append('%s <= 2^64-1' % x.e)
+            return x.e
+        W.refine_sym(x.e, lo=top + 1)
+        W.trace.append('%s > 2^64-1 (strtoull saturates)' % x.e)
+        return top
+
+    S = {STR + '4sizeEv': str_size, STR + '6lengthEv': str_size, STR + 'ixEm': str_index, STR + '2atEm': str_index,
+         STR + '5frontEv': str_index, 'strtoull': strtoull, 'strtoul': strtoull, '__isoc23_strtoull': strtoull, '__isoc23_strtoul': strtoull,
+         '__gmpz_fits_slong_p': fits(-(1 << 63), (1 << 63) - 1), '__gmpz_fits_ulong_p': fits(0, (1 << 64) - 1),
          '__gmpz_fits_sint_p': fits(-(1 << 31), (1 << 31) - 1), '__gmpz_fits_uint_p': fits(0, (1 << 32) - 1),
          '__gmpz_tdiv_ui': rem_ui('t'), '__gmpz_fdiv_ui': rem_ui('f'), '__gmpz_cdiv_ui': rem_ui('c'), '__gmpz_fdiv_r_ui': fdiv_r_ui,
          '__gmpz_init': init, '__gmpz_init_set_ui': init_set_ui, '__gmpz_init_set_si': init_set_si, '__gmpz_init_set_str': init_set_str,
